@@ -91,7 +91,9 @@ RestartOK(r) ==
         /\ indexes' = n.indexes /\ unmerge' = 0 /\ views' = <<>>
         /\ tags' = n.bundle.tags /\ flags' = n.bundle.flags /\ jobs' = n.bundle.jobs /\ use' = n.bundle.use
         /\ during' = n.bundle.during /\ toConv' = n.bundle.toConv
-        /\ cache' = ca
+        /\ IF Opt(r.ev, "what", "") = "cache"           \* a kill inside the append of a cache record: the end of the file is lost
+           THEN DOMAIN cache' = DOMAIN ca /\ \A c \in DOMAIN ca : cache'[c] \subseteq ca[c] /\ Cardinality(ca[c] \ cache'[c]) <= 2
+           ELSE cache' = ca
         /\ \E St \in {SettingsOf(pre.settings)} \cup {IF "expSettings" \in DOMAIN r THEN SettingsOf(r.expSettings) ELSE SettingsOf(pre.settings)} :
               settings' \in [hooks : {St.hooks}, cfg : {St.cfg}, eps : Perms(St.eps)]
 
@@ -199,6 +201,15 @@ SettingsKept(r) ==
     \/ (HasField(r, "expSettings") /\ SettingsKeptFor(r.expSettings))
     \/ (HasField(r, "pre") /\ SettingsKeptFor(r.pre.settings))
     \/ (~HasField(r, "pre") /\ ~HasField(r, "expSettings"))
+\* the converter caches come back as they were (a kill inside the append of a record loses at most the end of the file)
+CacheOf(st) == [c \in DOMAIN st.cache |-> {<<e.id, S(e.v)>> : e \in S(st.cache[c])}]
+CacheKept(r) ==
+    HasField(r, "pre") =>
+        LET was == CacheOf(r.pre) IN
+        /\ DOMAIN was \subseteq DOMAIN cache
+        /\ \A c \in DOMAIN was :
+              /\ cache[c] \subseteq was[c]
+              /\ IF Opt(r.ev, "what", "") = "cache" THEN Cardinality(was[c] \ cache[c]) <= 2 ELSE was[c] \subseteq cache[c]
 StreamsKept(r) ==
     HasField(r, "preVis") =>
         \A e \in EntrySet(r.preVis) : \E e2 \in ObsVis(r) : e2[1] = e[1] /\ e2[2] = e[2] /\ e[3] \subseteq e2[3]
@@ -233,7 +244,7 @@ Props ==
            truth == ObsTruth(r)
            vis == ObsVis(r)
        IN
-       /\ Chk(r.obs.err = "", r, "obs-error")
+       /\ ChkI(r.obs.err = "", r, "obs-error", r.obs.err)
        \* ---- C06
        /\ Chk(DOMAIN truth = DOMAIN tags, r, "C06.truth-undefined")
        /\ DOMAIN truth = DOMAIN tags =>
@@ -272,6 +283,7 @@ Props ==
        /\ (r.ev.a = "CrashRestart" /\ r.res = "ok") =>
             /\ Chk(TagsKept(r), r, "C12.TagsKept")
             /\ Chk(SettingsKept(r), r, "C12.SettingsKept")
+            /\ Chk(CacheKept(r), r, "C12.CacheKept")
             /\ ChkI(StreamsKept(r), r, "C12.StreamsKept", IF Reordered(r) THEN "reordered" ELSE "")
             /\ (indexes = (IF HasField(r, "order") THEN r.order ELSE <<>>)) \/ Say("nonconf", r, "restart-order")
        /\ r.last => Chk(Settled, r, "C12.Converges")
